@@ -11,7 +11,7 @@
 (*   IngestMerge  IngestKeep:  first b shard tables (min-key order) merged, stay ingest *)
 (*   IngestDrain  IngestDrain: first b shard tables merged with overlapping main run    *)
 (*   CompactL1    PlanForRegular: one L1 main table + overlapping L2 tables -> L2       *)
-(*   Reopen       Close + Open: WAL segments replayed as sealed memtables and flushed   *)
+(*   Reopen       Close + Open: WAL replay; newest memtable active again, older flushed *)
 (*                                                                                    *)
 (* Entries carry a version; the plain API writes every entry at MAXV, so recency must  *)
 (* come from the order in which sources are consulted (property C01); the versioned    *)
@@ -210,12 +210,15 @@ CompactL1 == /\ main1 # {} /\ nextFid <= MaxFid
              /\ Log([op |-> "CompactL1"])
              /\ UNCHANGED <<mem, memSeg, imm, L0, ing1, ref, writes>>
 
-\* Close + Open: every WAL segment becomes a sealed memtable that is flushed in order
-Reopen == /\ "Reopen" \in Enabled /\ nextFid <= MaxFid
-          /\ LET all == imm \o (IF CellsOf(mem) # {} THEN <<[seg |-> memSeg, data |-> mem]>> ELSE <<>>)
-             IN /\ Cardinality(L0) + Len(all) <= MaxL0
-                /\ L0' = L0 \cup {[fid |-> all[i].seg, data |-> all[i].data] : i \in 1..Len(all)}
-          /\ imm' = <<>> /\ mem' = Empty /\ memSeg' = nextFid /\ nextFid' = nextFid + 1
+\* Close + Open (LSM.recovery): every WAL segment above the log pointer is replayed into a memtable;
+\* the newest non-empty one becomes the ACTIVE memtable again (same segment id), the older ones are
+\* sealed and flushed in order. Only when nothing was recovered a fresh memtable (fresh fid) is created.
+Reopen == /\ "Reopen" \in Enabled
+          /\ Cardinality(L0) + Len(imm) <= MaxL0
+          /\ L0' = L0 \cup {[fid |-> imm[i].seg, data |-> imm[i].data] : i \in 1..Len(imm)}
+          /\ imm' = <<>>
+          /\ IF CellsOf(mem) # {} THEN UNCHANGED <<mem, memSeg, nextFid>>
+             ELSE /\ nextFid <= MaxFid /\ mem' = Empty /\ memSeg' = nextFid /\ nextFid' = nextFid + 1
           /\ Log([op |-> "Reopen"])
           /\ UNCHANGED <<ing1, main1, main2, ref, writes>>
 
@@ -247,5 +250,5 @@ KeySig(k) ==
         m2   == {SrcSig("main2", t.data, k) : t \in main2}
     IN <<SelectSeq(mems \o l0, LAMBDA f : DOMAIN f # {}), {f \in ing : DOMAIN f # {}},
          {f \in m1 : DOMAIN f # {}}, {f \in m2 : DOMAIN f # {}}>>
-EmitCover == PrintT(<<"COVER", [k \in Keys |-> KeySig(k)], ToJson(hist)>>)
+EmitCover == PrintT(<<"COVER", [k \in Keys |-> <<KeySig(k), k \in taint>>], ToJson(hist)>>)
 =============================================================================
